@@ -40,7 +40,10 @@ def _mk(c, cls):
     return s
 
 
-def _K(r): return 0.5 * (r @ r)
+def _K(r, s=None):
+    """kinetic energy: the sampler's own `_Kfun` when a sampler is given (the slice variable, the start and every leaf must use the SAME function -
+    a constant added consistently is harmless and accepted), 0.5 r.r otherwise; `kinetic_energy` pins `_Kfun` up to that constant"""
+    return 0.5 * (r @ r) if s is None else s._Kfun(r, 'eval')
 
 
 def leapfrog(c, cls):
@@ -78,6 +81,16 @@ def leapfrog_nonfinite(c, cls, val):
     c.holds('non_finite_log_density_reported_as_it_is', (l1 != l1) if val != val else (l1 == val), note=str(l1))
 
 
+def kinetic_energy(c, cls):
+    """`_Kfun(r,'eval')` is 0.5 r.r up to a constant that does not depend on r (energy differences are what the slice and the acceptance statistic see),
+    and 'sample' draws a fresh standard normal of the target's dimension"""
+    s = _mk(c, cls)
+    r, r2 = c.avec('r'), c.avec('r2')
+    c.eq('kinetic_energy_differences_are_half_squared_norm_differences', s._Kfun(r, 'eval') - s._Kfun(r2, 'eval'), 0.5 * (r @ r) - 0.5 * (r2 @ r2))
+    z = c.next_normal('z', None if c.sym else c.numdim)
+    c.eq('momentum_draw_is_standard_normal', s._Kfun(None, 'sample'), z)
+
+
 def tree_base(c, cls, v):
     s = _mk(c, cls); F, G = s._target.f, s._target.g
     x, r = c.avec('x'), c.avec('r'); eps = c.real('eps', pos=True)
@@ -85,7 +98,7 @@ def tree_base(c, cls, v):
     out = s._BuildTree(x, r, G(x), Ham, log_u, v, 0, eps)
     (pm, rm, gm, pp, rp, gp, pc, lc, gc, n, st, al, na) = out
     rh = r + 0.5 * (v * eps) * G(x); x1 = x + (v * eps) * rh; r1 = rh + 0.5 * (v * eps) * G(x1)
-    H1 = F(x1) - _K(r1)
+    H1 = F(x1) - _K(r1, s)
     for nm, a, b in (('minus_endpoint', pm, x1), ('plus_endpoint', pp, x1), ('candidate', pc, x1), ('minus_momentum', rm, r1), ('plus_momentum', rp, r1)):
         c.eq(f'single_leaf_{nm}_is_the_leapfrog_state', a, b)
     c.eq('candidate_logd_belongs_to_candidate', lc, F(x1)); c.eq('candidate_gradient_belongs_to_candidate', gc, G(x1))
@@ -294,7 +307,7 @@ def step_prologue(c):
     r0 = c.next_normal('r0', None if c.sym else c.numdim)
     tag, st = pre(dict(self=s))
     c.eq('momentum_is_a_fresh_standard_normal_draw', st['r_k'], r0)
-    c.eq('hamiltonian_from_cached_logd_and_kinetic_energy', st['Ham'], F(xk) - _K(r0))
+    c.eq('hamiltonian_from_cached_logd_and_kinetic_energy', st['Ham'], F(xk) - _K(r0, s))
     c.eq('tree_starts_at_current_point_both_ends', st['point_minus'], xk); c.eq('tree_starts_at_current_point_plus', st['point_plus'], xk)
     c.eq('initial_gradient_is_the_cached_one', st['grad_minus'], G(xk))
     lu = np.asarray(st['log_u']).reshape(-1)[0]
@@ -337,6 +350,7 @@ def jobs(tier):
         J.append(Job(f'{tag}.NUTS._Leapfrog:structure_and_reversibility', lambda c, cls=cls: leapfrog(c, cls), 'Pinf', [f'{q}._Leapfrog', f'{q}._nuts_target']))
         for val in (float('-inf'), float('nan'), float('inf')):
             J.append(Job(f'{tag}.NUTS._Leapfrog:non_finite_log_density={val}', lambda c, cls=cls, val=val: leapfrog_nonfinite(c, cls, val), 'Pinf', [f'{q}._Leapfrog', f'{q}._nuts_target']))
+        J.append(Job(f'{tag}.NUTS._Kfun:kinetic_energy', lambda c, cls=cls: kinetic_energy(c, cls), 'Pinf', [f'{q}._Kfun']))
         for v in (-1, 1):
             J.append(Job(f'{tag}.NUTS._BuildTree:base_case:v={v}', lambda c, cls=cls, v=v: tree_base(c, cls, v), 'Pinf', [f'{q}._BuildTree', f'{q}._Leapfrog', f'{q}._Kfun'], maxpaths=256))
             for val in (float('nan'), float('-inf')):
